@@ -99,4 +99,11 @@ def inputs(N, rng, all_impulses=True):
         e[N // 2, N // 2 - 1 if N > 1 else 0] += coef
         ins.append(("two-impulse", e))
     ins.append(("random", rng.standard_normal((N, N)) + 1j * rng.standard_normal((N, N))))
+    if N >= 2:
+        # fields whose rows / columns sum to exactly zero although they are not empty (a 0 / pi phase step, a +-1 checkerboard)
+        ii, jj = np.indices((N, N))
+        ins.append(("checkerboard", ((-1.0) ** (ii + jj)).astype(complex)))
+        step = np.ones((N, N), complex)
+        step[:, N // 2:] = -1.0
+        ins.append(("phase-step", step))
     return ins
